@@ -3,6 +3,8 @@
 #include "Stream/MemoryWriter.h"
 #include "Stream/DynamicMemoryWriter.h"
 #include "Stream/FileWriter.h"
+#include <sys/stat.h>
+#include <unistd.h>
 #include "Stream/MemoryReader.h"
 #include "Stream/FileReader.h"
 #include "Stream/SliceReader.h"
@@ -405,6 +407,20 @@ void run_sweep(Stats& st) {
 				std::vector<uint8_t> big(70001); for (size_t i = 0; i < big.size(); ++i) big[i] = uint8_t(i * 31 + (i >> 9));
 				for (unsigned how = 1; how < 5; ++how) { filewriter_case(flags, ex, old, data, st, how); if (variant == 0) filewriter_case(flags, ex, old, big, st, how); st.evaluations += 2; }
 			}
+	// accumulation: every cell of the matrix whose open is REFUSED, 300 times in a row (more than the descriptor budget of a harness process), then
+	// the whole matrix once more - a refusal path that keeps something (a descriptor) would make lawful opens fail by then
+	for (unsigned flags = 0; flags < 16; ++flags) for (int ex = 0; ex < 2; ++ex) {
+		using FW = Stream::FileWriter; bool canExisting = flags & FW::CanOpenExisting, canNew = flags & FW::CanOpenNew, trunc = flags & FW::Truncate, app = flags & FW::Append;
+		bool refused = (!canExisting && !canNew) || (trunc && app) || (ex && !canExisting) || (!ex && !canNew);
+		if (!refused || !sw("filewriter_refusal_storm", flags, ex)) continue;
+		for (int i = 0; i < 300; ++i) filewriter_case(flags, ex, {'o', 'l', 'd'}, {'n', 'e', 'w'}, st);
+		for (unsigned f2 = 0; f2 < 16; ++f2) for (int e2 = 0; e2 < 2; ++e2) filewriter_case(f2, e2, {'h', 'e', 'l', 'l', 'o'}, {'X', 'Y'}, st);
+		// also a destination that is a directory, and one inside a directory that does not exist
+		std::string d = scratch_path("c14_dir"); mkdir(d.c_str(), 0700);
+		for (int i = 0; i < 300; ++i) { guarded([&] { FW w(d); }); guarded([&] { FW w(scratch_path("c14_nodir/x/y.bin"), static_cast<FW::OpenMode>(FW::CanOpenExisting)); }); }
+		rmdir(d.c_str());
+		for (unsigned f2 = 0; f2 < 16; ++f2) filewriter_case(f2, 1, {'h', 'i'}, {'Z'}, st);
+	}
 	// (a) all 2-step histories over the boundary table on a 5-byte buffer
 	for (unsigned o1 = 0; o1 < 5; ++o1) for (unsigned c1 = 0; c1 < 14; ++c1) for (unsigned o2 = 0; o2 < 5; ++o2) for (unsigned c2 = 0; c2 < 14; ++c2) {
 		if (!sw("mem2", o1 * 16 + c1, o2 * 16 + c2)) continue;
